@@ -91,7 +91,7 @@ package stack
 //@     && (forall i :: 0 <= i && i < len(s.Goroutines) ==> (s.Goroutines[i].First <==> i == 0))
 //@     && (s.state == looking ==> len(s.prefix) == 0)
 //@     && ((s.state == looking || s.state == gotRaceHeader1 || s.state == gotRaceHeader2) ==> s.Goroutines == nil)
-//@     && (NeedsCur(s.state) ==> len(s.Goroutines) >= 1)
+//@     && ((NeedsCur(s.state) || s.state >= gotRaceOperationHeader) ==> len(s.Goroutines) >= 1)
 //@     && ((s.state == gotFunc || s.state == gotRaceOperationFunc) ==> len(s.Goroutines[len(s.Goroutines)-1].Stack.Calls) >= 1)
 //@     && (s.state == gotCreated ==> len(s.Goroutines[len(s.Goroutines)-1].CreatedBy.Calls) >= 1)
 //@     && (RaceG(s.state) ==> 0 <= s.goroutineIndex && s.goroutineIndex < len(s.Goroutines))
@@ -100,14 +100,20 @@ package stack
 //@ func (*scanningState).scan
 //@   requires Inv(s)
 //@   modifies scanningState.* at s; Snapshot.Goroutines at s.Snapshot; E:*stack.Goroutine; Goroutine.*, Signature.*, Stack.*, Call.*, Func.*, Args.*, Arg.*
-//@   ensures Inv(s) && s.Snapshot == old(s.Snapshot)
-//@   ensures [doneAbsorbing C07] old(s.state) == done ==> !result0 && result1 == nil && s.state == done
+//@   ensures [stateInv C03 C07] Inv(s) && s.Snapshot == old(s.Snapshot)
+//@   ensures [doneAbsorbing C07] old(s.state) == done ==> !result0 && s.state == done
 //@   ensures [errNotConsumed C07] result1 != nil ==> !result0
 //@   ensures [endsAtFirstBadLine C07] !result0 && result1 == nil && old(s.state) != looking ==> s.state == done
 //@   ensures [neverBackToLooking C02 C07] old(s.state) != looking ==> s.state != looking
 //@   ensures [lookingPassThrough C02] old(s.state) == looking ==> result1 == nil && (!result0 ==> s.state == looking)
 //@   ensures [consumedLeavesLooking C02] result0 ==> s.state != looking
 //@   ensures [growOnly C01 C10] len(s.Goroutines) >= old(len(s.Goroutines)) && len(s.Goroutines) <= old(len(s.Goroutines)) + 1 && forall i :: 0 <= i && i < old(len(s.Goroutines)) ==> s.Goroutines[i] == old(s.Goroutines[i])
+
+//@   loop 0: invariant 1 <= i
+//@   loop 0: decreases len(items) - i
+//@   loop 1: invariant Inv(s) && s.Snapshot == old(s.Snapshot) && !found && (s.state == betweenRaceOperations || s.state == betweenRaceGoroutines) && s.state == old(s.state) && s.Goroutines == old(s.Goroutines)
+//@   loop 1: invariant -1 <= rangeindex && rangeindex < len(s.Goroutines)
+//@   loop 1: decreases len(s.Goroutines) - rangeindex
 
 //@ func parseFunc
 //@   option assumed
